@@ -463,8 +463,11 @@ def generate(prop, seed, tier, n_incompat_max):
     spec = gen_dsg.gen_selection_spec(rng, n_incompat_max=n_incompat_max,
                                       p_island=0.03, p_cycle=rng.choice([0.0, 0.15, 0.4, 0.9]),
                                       p_shared=rng.choice([0.0, 0.3, 0.7]))
-    if rng.random() < 0.12:
+    motif = rng.random()
+    if motif < 0.12:
         spec = gen_dsg.add_two_entry_cycle(rng, spec)
+    elif motif < 0.22:
+        spec = gen_dsg.add_reconvergent(rng, spec)
     orng = s('ops')
     n_walks = 3 if tier == 'quick' else 5
     walks = [{'order_seed': orng.getrandbits(32), 'picks': None} for _ in range(n_walks)]
